@@ -137,6 +137,14 @@ def replay_reblock(req, tmp):
         if got.shape != exp.shape or not bits_equal(got, exp):
             g, e = np.ascontiguousarray(got, dtype=np.float32).view(np.uint32), np.ascontiguousarray(exp, dtype=np.float32).view(np.uint32)
             bad.append('decoded volume differs from the source at %s of %d voxels' % (int(np.count_nonzero(g != e)) if g.shape == e.shape else 'shape %s' % (got.shape,), e.size))
+        rs = R.SgzReader(src)
+        for name in ('ilines', 'xlines', 'zslices'):
+            a, b = np.asarray(getattr(rs, name)), np.asarray(getattr(r, name))
+            if a.shape != b.shape or not np.array_equal(a, b):
+                bad.append('%s axis changed: source %s.., re-blocked %s..' % (name, a[:3].tolist(), b[:3].tolist()))
+        if rs.tracecount != r.tracecount:
+            bad.append('trace count changed: source %d, re-blocked %d' % (rs.tracecount, r.tracecount))
+        rs.close()
         present = [g for g in range(dims[0] * dims[1]) if g not in holes]
         for t in (0, len(present) - 1):
             hd = quiet(r.gen_trace_header, t)
